@@ -419,6 +419,61 @@ fn c16_compose() {
     println!("NONE {}", cases);
 }
 
+/// C16: an ordered-list decorator whose widest marker is neither the first nor the last (roman numerals)
+#[derive(Clone)]
+struct RomanDec;
+fn roman(mut n: i64) -> String {
+    if n <= 0 || n > 3999 { return n.to_string(); }
+    let t = [(1000, "m"), (900, "cm"), (500, "d"), (400, "cd"), (100, "c"), (90, "xc"), (50, "l"), (40, "xl"), (10, "x"), (9, "ix"), (5, "v"), (4, "iv"), (1, "i")];
+    let mut s = String::new();
+    for (v, r) in t { while n >= v { s.push_str(r); n -= v; } }
+    s
+}
+impl TextDecorator for RomanDec {
+    type Annotation = ();
+    fn decorate_link_start(&mut self, _u: &str) -> (String, ()) { ("[".into(), ()) }
+    fn decorate_link_end(&mut self) -> String { "]".into() }
+    fn decorate_em_start(&self) -> (String, ()) { ("".into(), ()) }
+    fn decorate_em_end(&self) -> String { "".into() }
+    fn decorate_strong_start(&self) -> (String, ()) { ("".into(), ()) }
+    fn decorate_strong_end(&self) -> String { "".into() }
+    fn decorate_strikeout_start(&self) -> (String, ()) { ("".into(), ()) }
+    fn decorate_strikeout_end(&self) -> String { "".into() }
+    fn decorate_code_start(&self) -> (String, ()) { ("".into(), ()) }
+    fn decorate_code_end(&self) -> String { "".into() }
+    fn decorate_preformat_first(&self) {}
+    fn decorate_preformat_cont(&self) {}
+    fn decorate_image(&mut self, _s: &str, t: &str) -> (String, ()) { (t.into(), ()) }
+    fn header_prefix(&self, l: usize) -> String { "#".repeat(l) + " " }
+    fn quote_prefix(&self) -> String { "> ".into() }
+    fn unordered_item_prefix(&self) -> String { "* ".into() }
+    fn ordered_item_prefix(&self, i: i64) -> String { format!("{}. ", roman(i)) }
+    fn make_subblock_decorator(&self) -> Self { self.clone() }
+}
+fn c16_roman() {
+    let mut cases = 0u64;
+    for (start, n) in [(1i64, 4usize), (1, 9), (6, 4), (17, 3), (38, 2)] {
+        let mut html = format!("<ol start=\"{}\">", start);
+        for k in 0..n { html.push_str(&format!("<li>aa{} bbb ccc ddd</li>", k)); }
+        html.push_str("</ol>");
+        for w in 8..=24usize {
+            cases += 1;
+            let h = html.clone();
+            match panic::catch_unwind(move || config::with_decorator(RomanDec).string_from_read(h.as_bytes(), w)) {
+                Err(_) => found("c16_roman", &format!("width={} html={}", w, html), "panic"),
+                Ok(Err(_)) => {}
+                Ok(Ok(s)) => {
+                    if let Some(l) = s.lines().find(|l| UnicodeWidthStr::width(*l) > w) { found("c16_roman", &format!("width={} html={}", w, html), &format!("line {:?} is {} columns wide; output {:?}", l, UnicodeWidthStr::width(l), s)); continue; }
+                    // all items start their text in one column
+                    let cols: Vec<usize> = s.lines().filter(|l| l.contains("aa")).map(|l| UnicodeWidthStr::width(&l[..l.find("aa").unwrap()])).collect();
+                    if cols.windows(2).any(|p| p[0] != p[1]) { found("c16_roman", &format!("width={} html={}", w, html), &format!("item texts start in columns {:?}; output {:?}", cols, s)); }
+                }
+            }
+        }
+    }
+    println!("NONE {}", cases);
+}
+
 /// C16: affixes of a custom decorator surround the element text verbatim (also inside nested inline elements)
 #[derive(Clone)]
 struct AffixDec;
@@ -600,6 +655,7 @@ fn main() {
         "c07_ol" => c07_ol(),
         "c16_prefix" => c16_prefix(),
         "c16_affix" => c16_affix(),
+        "c16_roman" => c16_roman(),
         "c16_compose" => c16_compose(),
         "c20_nth" => c20_nth(),
         "c01_engine" => c01_engine(),
